@@ -790,6 +790,14 @@ static void janet_chan_deinit(JanetChannel *chan) {
     if (janet_chan_is_threaded(chan)) {
         Janet item;
         janet_chan_lock(chan);
+        /* Abandoned waiters (e.g. cancelled fibers) of this thread are still rooted. */
+        JanetChannelPending pending;
+        while (!janet_q_pop(&chan->read_pending, &pending, sizeof(pending))) {
+            if (pending.thread == &janet_vm) janet_gcunroot(janet_wrap_fiber(pending.fiber));
+        }
+        while (!janet_q_pop(&chan->write_pending, &pending, sizeof(pending))) {
+            if (pending.thread == &janet_vm) janet_gcunroot(janet_wrap_fiber(pending.fiber));
+        }
         janet_q_deinit(&chan->read_pending);
         janet_q_deinit(&chan->write_pending);
         while (!janet_q_pop(&chan->items, &item, sizeof(item))) {
@@ -881,6 +889,8 @@ static void janet_thread_chan_cb(JanetEVGenericMessage msg) {
     int mode = msg.tag;
     JanetChannel *channel = (JanetChannel *) msg.argp;
     Janet x = msg.argj;
+    /* The pending entry for this fiber has been consumed, release the root taken when it was queued. */
+    janet_gcunroot(janet_wrap_fiber(fiber));
     janet_chan_lock(channel);
     if (fiber->sched_id == sched_id) {
         if (mode == JANET_CP_MODE_CHOICE_READ) {
@@ -1307,6 +1317,7 @@ JANET_CORE_FN(cfun_channel_close,
                 msg.argj = janet_wrap_nil();
                 janet_ev_post_event(vm, janet_thread_chan_cb, msg);
             } else {
+                if (janet_chan_is_threaded(channel)) janet_gcunroot(janet_wrap_fiber(writer.fiber));
                 if (janet_fiber_can_resume(writer.fiber)) {
                     if (writer.mode == JANET_CP_MODE_CHOICE_WRITE) {
                         janet_schedule(writer.fiber, make_close_result(channel));
@@ -1328,6 +1339,7 @@ JANET_CORE_FN(cfun_channel_close,
                 msg.argj = janet_wrap_nil();
                 janet_ev_post_event(vm, janet_thread_chan_cb, msg);
             } else {
+                if (janet_chan_is_threaded(channel)) janet_gcunroot(janet_wrap_fiber(reader.fiber));
                 if (janet_fiber_can_resume(reader.fiber)) {
                     if (reader.mode == JANET_CP_MODE_CHOICE_READ) {
                         janet_schedule(reader.fiber, make_close_result(channel));
